@@ -35,6 +35,7 @@ mod hub;
 mod hubio;
 mod c13;
 mod e5;
+mod e6;
 mod c15;
 
 use common::*;
